@@ -209,3 +209,118 @@ theorem iterated_integral_3d (a b : ℝ) (i j k : ℕ) :
   ring
 
 end Darsia.Quad
+
+namespace Darsia.Quad
+open Real
+
+/-! ### the iterated interval integral of a polynomial given by its terms (d = 2, 3) -/
+
+theorem continuous_list_sum_map {α : Type} (l : List α) (f : α → ℝ → ℝ) (hf : ∀ c ∈ l, Continuous (f c)) :
+    Continuous fun x => (l.map fun c => f c x).sum := by
+  induction l with
+  | nil => simpa using continuous_const
+  | cons c l ih =>
+    simp only [List.map_cons, List.sum_cons]
+    exact (hf c (by simp)).add (ih fun c' h => hf c' (by simp [h]))
+
+/-- the interval integral of a finite sum of continuous functions, term by term -/
+theorem integral_list_sum {α : Type} (l : List α) (f : α → ℝ → ℝ) (hf : ∀ c ∈ l, Continuous (f c)) (a b : ℝ) :
+    ∫ x in a..b, (l.map fun c => f c x).sum = (l.map fun c => ∫ x in a..b, f c x).sum := by
+  induction l with
+  | nil => simp
+  | cons c l ih =>
+    simp only [List.map_cons, List.sum_cons]
+    rw [intervalIntegral.integral_add ((hf c (by simp)).intervalIntegrable _ _)
+      ((continuous_list_sum_map l f fun c' h => hf c' (by simp [h])).intervalIntegrable _ _),
+      ih fun c' h => hf c' (by simp [h])]
+
+theorem monoEval_two (es : List ℕ) (h : es.length = 2) (x y : ℝ) :
+    monoEval es [x, y] = x ^ es.getD 0 0 * y ^ es.getD 1 0 := by
+  match es, h with
+  | [i, j], _ => simp [monoEval]
+
+theorem monoEval_three (es : List ℕ) (h : es.length = 3) (x y z : ℝ) :
+    monoEval es [x, y, z] = x ^ es.getD 0 0 * (y ^ es.getD 1 0 * z ^ es.getD 2 0) := by
+  match es, h with
+  | [i, j, k], _ => simp [monoEval]
+
+theorem prod_two (es : List ℕ) (h : es.length = 2) (I : ℕ → ℝ) : (es.map I).prod = I (es.getD 0 0) * I (es.getD 1 0) := by
+  match es, h with
+  | [i, j], _ => simp
+
+theorem prod_three (es : List ℕ) (h : es.length = 3) (I : ℕ → ℝ) :
+    (es.map I).prod = I (es.getD 0 0) * (I (es.getD 1 0) * I (es.getD 2 0)) := by
+  match es, h with
+  | [i, j, k], _ => simp
+
+/-- **d = 2**: the iterated integral of a polynomial is its term-wise integral -/
+theorem integral_polyEval_2d (terms : List (ℝ × List ℕ)) (h : ∀ c ∈ terms, c.2.length = 2) (a b : ℝ) :
+    ∫ x in a..b, ∫ y in a..b, polyEval terms [x, y]
+      = (terms.map fun c => c.1 * (c.2.map fun k => ∫ x in a..b, x ^ k).prod).sum := by
+  have e : ∀ x y : ℝ, polyEval terms [x, y]
+      = (terms.map fun c => c.1 * (x ^ c.2.getD 0 0 * y ^ c.2.getD 1 0)).sum := by
+    intro x y
+    unfold polyEval
+    congr 1
+    apply List.map_congr_left
+    intro c hc
+    rw [monoEval_two c.2 (h c hc)]
+  have inner : (fun x : ℝ => ∫ y in a..b, polyEval terms [x, y])
+      = fun x => (terms.map fun c => c.1 * (∫ y in a..b, y ^ c.2.getD 1 0) * x ^ c.2.getD 0 0).sum := by
+    funext x
+    simp only [e]
+    rw [integral_list_sum terms (fun c y => c.1 * (x ^ c.2.getD 0 0 * y ^ c.2.getD 1 0)) (fun c _ => by fun_prop)]
+    congr 1
+    apply List.map_congr_left
+    intro c _
+    rw [intervalIntegral.integral_const_mul, intervalIntegral.integral_const_mul]; ring
+  rw [inner, integral_list_sum terms (fun c x => c.1 * (∫ y in a..b, y ^ c.2.getD 1 0) * x ^ c.2.getD 0 0)
+    (fun c _ => by fun_prop)]
+  congr 1
+  apply List.map_congr_left
+  intro c hc
+  rw [intervalIntegral.integral_const_mul, prod_two c.2 (h c hc)]; ring
+
+/-- **d = 3** -/
+theorem integral_polyEval_3d (terms : List (ℝ × List ℕ)) (h : ∀ c ∈ terms, c.2.length = 3) (a b : ℝ) :
+    ∫ x in a..b, ∫ y in a..b, ∫ z in a..b, polyEval terms [x, y, z]
+      = (terms.map fun c => c.1 * (c.2.map fun k => ∫ x in a..b, x ^ k).prod).sum := by
+  have e : ∀ x y z : ℝ, polyEval terms [x, y, z]
+      = (terms.map fun c => c.1 * (x ^ c.2.getD 0 0 * (y ^ c.2.getD 1 0 * z ^ c.2.getD 2 0))).sum := by
+    intro x y z
+    unfold polyEval
+    congr 1
+    apply List.map_congr_left
+    intro c hc
+    rw [monoEval_three c.2 (h c hc)]
+  have inner1 : (fun (x y : ℝ) => ∫ z in a..b, polyEval terms [x, y, z])
+      = fun x y => (terms.map fun c => c.1 * (∫ z in a..b, z ^ c.2.getD 2 0) * x ^ c.2.getD 0 0 * y ^ c.2.getD 1 0).sum := by
+    funext x y
+    simp only [e]
+    rw [integral_list_sum terms (fun c z => c.1 * (x ^ c.2.getD 0 0 * (y ^ c.2.getD 1 0 * z ^ c.2.getD 2 0)))
+      (fun c _ => by fun_prop)]
+    congr 1
+    apply List.map_congr_left
+    intro c _
+    rw [intervalIntegral.integral_const_mul, intervalIntegral.integral_const_mul, intervalIntegral.integral_const_mul]
+    ring
+  have inner2 : (fun x : ℝ => ∫ y in a..b, ∫ z in a..b, polyEval terms [x, y, z])
+      = fun x => (terms.map fun c => c.1 * (∫ z in a..b, z ^ c.2.getD 2 0) * (∫ y in a..b, y ^ c.2.getD 1 0)
+          * x ^ c.2.getD 0 0).sum := by
+    funext x
+    have : (fun y : ℝ => ∫ z in a..b, polyEval terms [x, y, z]) = _ := congrFun inner1 x
+    rw [this, integral_list_sum terms
+      (fun c y => c.1 * (∫ z in a..b, z ^ c.2.getD 2 0) * x ^ c.2.getD 0 0 * y ^ c.2.getD 1 0) (fun c _ => by fun_prop)]
+    congr 1
+    apply List.map_congr_left
+    intro c _
+    rw [intervalIntegral.integral_const_mul]; ring
+  rw [inner2, integral_list_sum terms
+    (fun c x => c.1 * (∫ z in a..b, z ^ c.2.getD 2 0) * (∫ y in a..b, y ^ c.2.getD 1 0) * x ^ c.2.getD 0 0)
+    (fun c _ => by fun_prop)]
+  congr 1
+  apply List.map_congr_left
+  intro c hc
+  rw [intervalIntegral.integral_const_mul, prod_three c.2 (h c hc)]; ring
+
+end Darsia.Quad
